@@ -185,6 +185,35 @@ func genBuild(t *Tracer, m *Meta, tier string, seed int64) {
 			runBuildCase(t, m, r, c2, "valid")
 		}
 	}
+	// (b2) the violation LATE in long keys: neighbours equal in their first L bytes and
+	// inverted (or equal, or a key followed by its own prefix) only behind them
+	for _, L := range []int{31, 32, 63, 64, 65, 127, 128, 255, 256, 257, 1000, 5000, 16383} {
+		common := randBytes(r, L, nil)
+		good := []string{"\x00", common + "\x10", common + "\x10\x00", common + "\x80", common + "\x80\xff", common + "\xff"}
+		sort.Strings(good)
+		good = uniq(good)
+		for k := 0; k < 3; k++ {
+			keys := append([]string{}, good...)
+			p := 1 + r.Intn(len(keys)-2)
+			kind := []string{"swap", "equal", "own-prefix-after"}[k]
+			switch k {
+			case 0:
+				keys[p], keys[p+1] = keys[p+1], keys[p]
+			case 1:
+				keys[p+1] = keys[p]
+			case 2:
+				keys[p+1] = keys[p][:len(keys[p])-1]
+			}
+			enc := []string{"i32", "none"}[r.Intn(2)]
+			c := &TrieCase{Keys: keys, Enc: enc, Opt4: all16[r.Intn(16)]}
+			if enc != "none" {
+				c.Vals = valsRuns(r, enc, len(keys), 1+r.Intn(3), 0)
+			}
+			runBuildCase(t, m, r, c, "late:"+kind)
+		}
+		c := &TrieCase{Keys: good, Enc: "i32", Vals: valsFromPattern("i32", len(good), 0, 1), Opt4: all16[r.Intn(16)]}
+		runBuildCase(t, m, r, c, "valid")
+	}
 	// (c) two or three keys sharing a single-branch run of L half-bytes, every
 	// length class up to beyond the 16-bit step counter, in every option combination
 	runs := []int{0, 1, 2, 3, 255, 256, 257, 510, 511, 512, 513, 4095, 4096, 32766, 32767, 32768, 65534, 65535, 65536, 65537, 70000, 131072}
